@@ -382,12 +382,24 @@ func readerWalk(c *core.Check) bool {
 		if pan != "" {
 			wrong = append(wrong, "panic")
 		}
+		// the accepted value marshalled again: its members in order, as tokens of the writer machine
+		valid, toks := true, []any{}
+		var out []byte
+		if decOK {
+			encOK, _ := e["encOK"].(bool)
+			if b, ok := e["bytes"].(string); ok {
+				out, _ = base64.StdEncoding.DecodeString(b)
+			}
+			var ok bool
+			toks, ok = memberTokens(out)
+			valid = encOK && ok
+		}
 		ev := map[string]any{"ev": "Read", "case": cid, "obj": m.obj, "doc": m.doc, "ok": decOK && pan == "", "named": named,
-			"values": values, "nulls": nulls, "zeros": zeros, "extras": extras, "wrong": wrong}
+			"values": values, "nulls": nulls, "zeros": zeros, "extras": extras, "wrong": wrong, "valid": valid, "toks": toks}
 		bs, _ := json.Marshal(ev)
 		events = append(events, bs)
 		info[cid] = map[string]any{"object": m.obj, "document": string(readerDocBytes(m.doc)), "decoded_ok": decOK, "error": derr, "panic": trunc(pan, 400),
-			"values": values, "nulls": nulls, "zeros": zeros, "extras": extras, "unexpected_content": wrong}
+			"values": values, "nulls": nulls, "zeros": zeros, "extras": extras, "unexpected_content": wrong, "encoded_again": string(out)}
 	}
 	if len(events) == 0 {
 		c.HarnessError("reader walk: no events")
@@ -404,7 +416,49 @@ func readerWalk(c *core.Check) bool {
 	c.Add("distinct_nontrivial", int64(jr.Nontriv))
 	c.Cov["reader_walk"] = map[string]any{"objects": len(good), "documents": len(events), "documents_per_object_max": maxDocs, "design_cfg": cfg}
 	for _, rj := range jr.Rejects {
-		c.Violation(map[string]any{"case": info[rj.Case], "reject": rj}, fmt.Sprintf("reader walk (c08): the generated reader does not do what Reader.tla computes: %v", info[rj.Case]))
+		var why struct {
+			Reads  bool `json:"reads"`
+			Writes bool `json:"writes"`
+		}
+		json.Unmarshal([]byte(rj.Why), &why)
+		what := "the generated reader does not do what Reader.tla computes"
+		if why.Reads && !why.Writes {
+			what = "the value was read as Reader.tla computes, but marshalling it again does not give the token stream of the writer machine (Codec.WriteObj)"
+		}
+		c.Violation(map[string]any{"case": info[rj.Case], "reject": rj}, fmt.Sprintf("reader / writer walk (c08): %s: %v", what, info[rj.Case]))
 	}
 	return true
+}
+
+// memberTokens reads a JSON object into the writer machine's token stream: its members in document order,
+// [key, v: "value" | "null"], separated by comma tokens; false when the bytes are not one JSON object.
+func memberTokens(bs []byte) ([]any, bool) {
+	toks := []any{}
+	if !json.Valid(bs) {
+		return toks, false
+	}
+	dec := json.NewDecoder(strings.NewReader(string(bs)))
+	if t, err := dec.Token(); err != nil || t != json.Delim('{') {
+		return toks, false
+	}
+	for dec.More() {
+		kt, err := dec.Token()
+		if err != nil {
+			return toks, false
+		}
+		k, _ := kt.(string)
+		var raw json.RawMessage
+		if err := dec.Decode(&raw); err != nil {
+			return toks, false
+		}
+		v := "value"
+		if strings.TrimSpace(string(raw)) == "null" {
+			v = "null"
+		}
+		if len(toks) > 0 {
+			toks = append(toks, map[string]any{"key": ",", "v": ","})
+		}
+		toks = append(toks, map[string]any{"key": k, "v": v})
+	}
+	return toks, true
 }
